@@ -62,6 +62,9 @@ def declare4(S: Spec):
          " for c in s.executor.pools[x.pool_id].active_containers) for x in result[0])"),
         ("suspends-only-while-a-query-waits-at-most-one-per-waiting-query-job",
          "len(result[0]) <= len(s.qry_jobs) and nodup([x.container_id for x in result[0]])"),
+        ("each-queue-holds-only-jobs-of-its-priority",
+         "all(j.priority == Priority.QUERY for j in s.qry_jobs) and all(j.priority == Priority.INTERACTIVE for j in s.interactive_jobs)"
+         " and all(j.priority == Priority.BATCH_PIPELINE for j in s.batch_ppln_jobs)"),
         ("suspended-work-is-remembered",
          "all(x.container_id in s.suspending for x in result[0])"),
         ("single-operator-mode-ready-pending-work-of-touched-pipelines-is-queued-or-started",
